@@ -216,6 +216,7 @@ def check_small(ctx, carrier, rows, start, mode, tree=None):
 
 
 def deep_table(shape, n):
+    """parent table (parent-first numbering, root 0) of a deep tree with n nodes"""
     if shape == "chain":
         return np.arange(-1, n - 1, dtype=np.int32)
     if shape == "caterpillar":  # spine 0,1,3,5,..., one leg 2,4,6,... on every spine node
@@ -228,18 +229,73 @@ def deep_table(shape, n):
                 j = (k - 1) // 2  # k = 2j+1 (spine) or 2j+2 (leg)
                 pid[k] = 2 * j - 1
         return pid
+    if shape == "twigs":  # comb with teeth of two nodes: spine node s, then its twig a -> b, then the next spine node
+        pid = np.empty(n, dtype=np.int32)
+        pid[0] = -1
+        spine = 0
+        for k in range(1, n):
+            r = (k - 1) % 3
+            if r == 0:
+                pid[k] = spine  # twig node a
+            elif r == 1:
+                pid[k] = k - 1  # twig node b
+            else:
+                pid[k] = spine  # next spine node
+                spine = k
+        return pid
+    if shape == "broom":  # a handle (chain) of about 3n/4 nodes, the rest are bristles on its tip; one more bristle bundle on the root
+        h = max(1, (3 * n) // 4)
+        pid = np.empty(n, dtype=np.int32)
+        pid[0] = -1
+        for k in range(1, n):
+            pid[k] = k - 1 if k < h else (h - 1 if k % 2 else 0)
+        return pid
     raise ValueError(shape)
 
 
-def check_deep(ctx, carrier, shape, n):
-    spec = dict(kind="deep", carrier=carrier, shape=shape, n=int(n))
+DEEP_SHAPES = ("chain", "caterpillar", "twigs", "broom")
+
+
+def _size_for_depth(shape, d):
+    """number of nodes that gives the deepest root-to-tip path about d nodes"""
+    return {"chain": d, "caterpillar": 2 * d, "twigs": 3 * d, "broom": (4 * d) // 3 + 4}[shape]
+
+
+def _with_frames(k, fn):
+    """call fn() from k additional Python frames (a traversal is rarely started from the top of the stack)"""
+    if k <= 0:
+        return fn()
+    return _with_frames(k - 1, fn)
+
+
+def check_deep(ctx, carrier, shape, n, start=0, mode="both", shuffle=None, frames=0, limit=1000):
+    """One deep tree, the callbacks COUNT every call (vectors ce / cl) and compute depth / subtree size through the values handed
+    down / up.  start: id of the start node (in the shuffled numbering when `shuffle` is a seed: node ids are renamed by a seeded
+    permutation fixing 0, rows stay in id order); frames: extra Python frames below the call; limit: interpreter recursion limit."""
+    spec = dict(kind="deep", carrier=carrier, shape=shape, n=int(n), start=int(start), mode=mode, shuffle=shuffle, frames=int(frames), limit=int(limit))
     pid = deep_table(shape, n)
-    depth = np.zeros(n, dtype=np.int64)
-    size = np.ones(n, dtype=np.int64)
-    for i in range(1, n):
-        depth[i] = depth[pid[i]] + 1
-    for i in range(n - 1, 0, -1):
-        size[pid[i]] += size[i]
+    if shuffle is not None:
+        prm = np.concatenate([[0], 1 + np.random.default_rng(shuffle).permutation(n - 1)]).astype(np.int64)
+        new = np.full(n, -1, dtype=np.int32)
+        new[prm[1:]] = prm[pid[1:]]
+        pid = new
+    # oracle, any numbering: children lists, subtree of `start` in breadth-first order, depth below start, subtree sizes
+    kids = [[] for _ in range(n)]
+    for i in range(n):
+        if pid[i] >= 0:
+            kids[pid[i]].append(i)
+    order, depth, in_sub = [start], np.zeros(n, dtype=np.int64), np.zeros(n, dtype=bool)
+    in_sub[start] = True
+    for x in order:
+        for c in kids[x]:
+            depth[c] = depth[x] + 1
+            in_sub[c] = True
+            order.append(c)
+    size = np.zeros(n, dtype=np.int64)
+    for x in reversed(order):
+        size[x] = 1 + sum(size[c] for c in kids[x])
+    sub = np.array(order, dtype=np.int64)
+    inner = sub[sub != start]
     ce = np.zeros(n, dtype=np.int64)
     cl = np.zeros(n, dtype=np.int64)
     tE = np.zeros(n, dtype=np.int64)
@@ -267,21 +323,30 @@ def check_deep(ctx, carrier, shape, n):
         gs[x] = s
         return s
 
+    kw = {}
+    if mode != "leave":
+        kw["enter"] = enter
+    if mode != "enter":
+        kw["leave"] = leave
     V = lambda clause, obs, exp: ctx.violation(carrier, clause, spec, obs, exp, spec)  # noqa: E731
     tree = None
     if node_based:
         tree = make_tree(pid, xyz=np.zeros((n, 3)), r=np.ones(n), types=np.ones(n, dtype=np.int32))
     old_limit = sys.getrecursionlimit()
+    what = f"{shape} of {n} nodes from node {start}, {frames} frames deep, under recursion limit {limit}"
     try:
-        sys.setrecursionlimit(1000)  # the interpreter's default
-        if node_based:
-            result = tree.traverse(enter=enter, leave=leave) if carrier == "Tree.traverse" else tree.node(0).traverse(enter=enter, leave=leave)
+        sys.setrecursionlimit(limit)  # 1000 = the interpreter's default
+        if carrier == "Tree.traverse":
+            call = lambda: tree.traverse(root=start, **kw)  # noqa: E731
+        elif carrier == "Tree.Node.traverse":
+            call = lambda: tree.node(start).traverse(**kw)  # noqa: E731
         else:
             from swcgeom.core.swc_utils import traverse
 
-            result = traverse((np.arange(n, dtype=np.int32), pid), enter=enter, leave=leave)
+            call = lambda: traverse((np.arange(n, dtype=np.int32), pid), root=start, **kw)  # noqa: E731
+        result = _with_frames(frames, call)
     except RecursionError as e:
-        V("deep-chain-no-recursion-limit", f"RecursionError: {str(e)[:80]}", f"{shape} of {n} nodes traversed under the default recursion limit")
+        V("deep-chain-no-recursion-limit", f"RecursionError: {str(e)[:80]}", what + " traversed")
         ctx.case("deep", spec)
         return
     except Exception as e:
@@ -290,16 +355,22 @@ def check_deep(ctx, carrier, shape, n):
         return
     finally:
         sys.setrecursionlimit(old_limit)
-    if not np.all(ce == 1):
-        V("enter-once-per-subtree-node", f"{int(np.count_nonzero(ce != 1))} nodes with enter count != 1", "every node once")
-    elif not (np.all(tE[pid[1:]] < tE[1:]) and np.array_equal(gd, depth)):
-        V("enter-after-parent-with-parent-value", "depth computed through enter values differs / parent entered later", "depth of every node")
-    if not np.all(cl == 1):
-        V("leave-once-after-children-with-their-values", f"{int(np.count_nonzero(cl != 1))} nodes with leave count != 1", "every node once")
-    elif not (np.all(tL[1:] < tL[pid[1:]]) and np.array_equal(gs, size)):
-        V("leave-once-after-children-with-their-values", "subtree sizes computed through leave values differ / child left later", "subtree size of every node")
-    if result != n:
-        V("returns-start-value", repr(result), f"{n} (the root's leave value)")
+    if mode != "leave":
+        if not np.array_equal(ce, in_sub.astype(np.int64)):
+            V("enter-once-per-subtree-node", f"{int(np.count_nonzero(ce != in_sub))} nodes with a wrong enter count (max {int(ce.max())}), {what}", "every subtree node once, no other node")
+        elif not (np.all(tE[pid[inner]] < tE[inner]) and np.array_equal(gd[sub], depth[sub])):
+            V("enter-after-parent-with-parent-value", "depth computed through enter values differs / parent entered later", "depth of every node below the start node")
+    elif ce.any():
+        V("enter-once-per-subtree-node", "enter events without an enter callback", "none")
+    if mode != "enter":
+        if not np.array_equal(cl, in_sub.astype(np.int64)):
+            V("leave-once-after-children-with-their-values", f"{int(np.count_nonzero(cl != in_sub))} nodes with a wrong leave count (max {int(cl.max())}), {what}", "every subtree node once, no other node")
+        elif not (np.all(tL[inner] < tL[pid[inner]]) and np.array_equal(gs[sub], size[sub])):
+            V("leave-once-after-children-with-their-values", "subtree sizes computed through leave values differ / child left later", "subtree size of every node")
+        if result != size[start]:
+            V("returns-start-value", repr(result), f"{int(size[start])} (the start node's leave value)")
+    elif result is not None:
+        V("returns-start-value", repr(result), "None (no leave callback)")
     ctx.case("deep", spec)
 
 
@@ -348,15 +419,37 @@ def run(ctx):
                 rng.shuffle(shuffled)
                 for start in range(n):
                     check_small(lim, "swc_utils.traverse", shuffled, start, "both")
-    # 3. depth
+    # 3. depth: far beyond the recursion limit
     n_chain, n_cat = (20000, 20000) if ctx.tier == "quick" else (100000, 50000)
     for carrier in CARRIERS:
         check_deep(lim, carrier, "chain", n_chain)
         check_deep(lim, carrier, "caterpillar", n_cat)
+        check_deep(lim, carrier, "twigs", n_cat, start=3 * (n_cat // 12), shuffle=rng.randrange(1 << 30))  # from a node inside, shuffled numbering
+        check_deep(lim, carrier, "broom", n_cat, mode=("enter", "leave")[CARRIERS.index(carrier) % 2], frames=200)
+    if ctx.tier == "quick":
+        check_deep(lim, "swc_utils.traverse", "chain", 100000)  # the depth the property names
+    # 4. depth AROUND the recursion limit (a traversal that recurses, or that recurses first and falls back to something else when the
+    #    interpreter objects, shows exactly there): every deep shape x the three carriers x depths limit-120 .. limit+120, from the top
+    #    of the stack and from a few hundred frames further down; start nodes inside the tree; single callbacks on the chain
+    limit = 1000
+    band = (-120, -40, -12, -4, 0, 4, 40, 120) if ctx.tier == "quick" else tuple(range(-150, 151, 10))
+    for k, off in enumerate(band):
+        d = limit + off
+        for shape in DEEP_SHAPES:
+            for carrier in CARRIERS:
+                j = k + DEEP_SHAPES.index(shape) + CARRIERS.index(carrier)
+                check_deep(lim, carrier, shape, _size_for_depth(shape, d), frames=(0, 300, 0, 650)[j % 4], limit=limit)
+        for carrier in CARRIERS:
+            n = _size_for_depth("chain", d + 60)
+            check_deep(lim, carrier, "chain", n, start=60, mode=MODES[k % 3], limit=limit)
+            n = _size_for_depth("caterpillar", d + 25)
+            check_deep(lim, carrier, "caterpillar", n, start=int(rng.randrange(1, 50)), shuffle=rng.randrange(1 << 30), limit=limit)
     ctx.rule(
         f"every sorted parent table with <= {nmax} nodes x every start node x callbacks {{enter, leave, both}} x the three carriers (exhaustive); "
         "non-sorted numberings with root 0 (all relabellings for n<=4, two seeded ones per table above) and shuffled row order for the table form; "
-        f"chain of {n_chain} and caterpillar of {n_cat} nodes under recursion limit 1000. Non-trivial = table with >= 2 nodes",
+        f"chain of {n_chain} (and of 100000 for the table form), caterpillar / comb with two-node twigs (start node inside, shuffled numbering) / broom of {n_cat} nodes "
+        f"under recursion limit 1000; chains, caterpillars, combs and brooms whose depth is the recursion limit {limit} + {list(band)}, from 0 / 300 / 650 extra frames, "
+        "the three carriers, start nodes inside the tree, single callbacks; every callback counts its calls. Non-trivial = table with >= 2 nodes",
         exhaustive=True,
     )
 
@@ -378,7 +471,8 @@ def replay(spec):
     if spec["kind"] == "small":
         check_small(c, spec["carrier"], [tuple(r) for r in spec["rows"]], spec["start"], spec["mode"])
     elif spec["kind"] == "deep":
-        check_deep(c, spec["carrier"], spec["shape"], spec["n"])
+        check_deep(c, spec["carrier"], spec["shape"], spec["n"], start=spec.get("start", 0), mode=spec.get("mode", "both"), shuffle=spec.get("shuffle"),
+                   frames=spec.get("frames", 0), limit=spec.get("limit", 1000))
     else:
         raise ValueError(spec["kind"])
     for v in c.v:
